@@ -807,6 +807,122 @@ def big_counts_and_lazy_groups(run: Run, tbl, formula, me):
             run.violation("mass of a formula built from a generator of groups: expected %r got %r" % (float(m), mass), inp)
 
 
+def empty_operands(run: Run, tbl, formula, me):
+    """the empty formula as the left and as the right operand of + (a running total started from formula()), as the
+    operand of n* and of formula(f), followed by += on the RESULT: f+g is a new formula whose atom counts are the
+    sums of its parts, and updating it in place leaves both operands - the non-empty one and the empty one - with
+    the atom counts, mass and charge of their own parts (the operand-identity tracking of run_python, for operands
+    the model's programs do not build)"""
+    from periodictable.formulas import Formula
+    rng = run.rng
+    empties = [("formula()", lambda: formula()), ("formula('')", lambda: formula("")), ("Formula()", lambda: Formula()),
+               ("formula([])", lambda: formula([])), ("formula({})", lambda: formula({})),
+               ("0-term sum", lambda: formula() + formula()), ("formula(formula())", lambda: formula(formula()))]
+    shapes = ["empty+f", "f+empty", "empty+f+g", "f+empty+g", "(empty+f)+(empty+g)", "1*(empty+f)", "formula(empty+f)",
+              "empty+empty", "sum-loop"]
+    for i in range(160 if run.tier == "quick" else 3000):
+        label, make = rng.choice(empties)
+        shape = rng.choice(shapes)
+        sf, sg, sh = (gens.gen_struct(rng, maxdepth=2) for _ in range(3))
+        route = rng.choice(["seq", "string", "dict"])
+        if route == "string":
+            sf = [(rng.choice([1, 2, 3, 7, 0.5, 2.5]), gens.gen_atom(rng)) for _ in range(rng.randint(1, 4))]
+        elif route == "dict":
+            sf = [(float(c) if c.denominator != 1 else int(c), k) for k, c in pyside.flat_counts(sf).items()]
+        inp = dict(empty=label, shape=shape, f=sf, f_built_as=route, g=sg, h=sh)
+        run.count(key="emptyop" + repr(inp), nontrivial=True, sample=repr(inp) if len(repr(inp)) < 300 else None,
+                  tag="empty-operand:" + shape)
+        try:
+            if route == "string":
+                f = formula(render_flat(sf, tbl))
+            elif route == "dict":
+                f = formula({pyside.atom_of(k, tbl): c for c, k in sf})
+            else:
+                f = formula(pyside.struct_objs(sf, tbl))
+            g = formula(pyside.struct_objs(sg, tbl))
+            h = formula(pyside.struct_objs(sh, tbl))
+            e = make()
+            if e.atoms or e.structure:
+                continue
+            wf, wg, wh = pyside.flat_counts(sf), pyside.flat_counts(sg), pyside.flat_counts(sh)
+            operands = [("f", f, wf), ("g", g, wg), ("h", h, wh), ("the empty formula", e, {})]
+            before = [_snapshot(x) for _, x, _ in operands]
+            if shape == "empty+f":
+                total, want = e + f, dict(wf)
+            elif shape == "f+empty":
+                total, want = f + e, dict(wf)
+            elif shape == "empty+f+g":
+                total, want = e + f + g, _sum_counts(wf, wg)
+            elif shape == "f+empty+g":
+                total, want = f + e + g, _sum_counts(wf, wg)
+            elif shape == "(empty+f)+(empty+g)":
+                total, want = (e + f) + (e + g), _sum_counts(wf, wg)
+            elif shape == "1*(empty+f)":
+                total, want = 1 * (e + f), dict(wf)
+            elif shape == "formula(empty+f)":
+                total, want = formula(e + f), dict(wf)
+            elif shape == "empty+empty":
+                total, want = e + make(), {}
+            else:
+                total, want = e, {}
+                for part, w in ((f, wf), (g, wg)):
+                    total = total + part
+                    want = _sum_counts(want, w)
+            mid = [_snapshot(x) for _, x, _ in operands]
+            got1 = {pyside.key_of(a): c for a, c in total.atoms.items()}
+            # the in-place update of the RESULT
+            total += h
+            want2 = _sum_counts(want, wh)
+            if rng.random() < 0.5:
+                total += h
+                want2 = _sum_counts(want2, wh)
+            after = [_snapshot(x) for _, x, _ in operands]
+            got2 = {pyside.key_of(a): c for a, c in total.atoms.items()}
+            mass2, charge2 = total.mass, total.charge
+        except Exception as ex:  # noqa
+            run.violation("arithmetic with the empty formula (%s, %s) raised %s: %s"
+                          % (label, shape, type(ex).__name__, str(ex)[:80]), inp)
+            continue
+        done = False
+        for (name, _x, w), b, m_, a in zip(operands, before, mid, after):
+            for when, now in (("by the operation that returns a new formula", m_),
+                              ("by += applied to the RESULT of %s (the operation returned its operand itself instead "
+                               "of a new formula)" % shape, a)):
+                diff = [q for q in ("structure", "atoms", "mass", "charge", "mass_fraction") if b[q] != now[q]]
+                if diff:
+                    run.violation("operand %s of %s: its %s changed %s; its atom counts are no longer the "
+                                  "count-weighted sum of its parts" % (name, shape, ", ".join(diff), when), inp,
+                                  before=str(b[diff[0]])[:200], after=str(now[diff[0]])[:200])
+                    done = True
+                    break
+            if done:
+                break
+        if done:
+            continue
+        for what, got, w in (("f+g with an empty operand (%s)" % shape, got1, want), ("the result after +=", got2, want2)):
+            if set(got) != set(w) or any(not close(float(w[k]), got[k]) for k in w):
+                run.violation("atom counts of %s are not the count-weighted sum of the parts: expected %s got %s"
+                              % (what, {k: float(v) for k, v in w.items()}, got), inp)
+                done = True
+                break
+        if done:
+            continue
+        masses = {k: Fraction(pyside.atom_of((k[0], k[1], 0), tbl).mass) - k[2] * me for k in want2}
+        m = sum((want2[k] * masses[k] for k in want2), Fraction(0))
+        if not close(float(m), mass2, rel=1e-9):
+            run.violation("mass of a sum with an empty operand after +=: expected %r got %r" % (float(m), mass2), inp)
+        ch = sum((want2[k] * k[2] for k in want2), Fraction(0))
+        if not close(float(ch), charge2, rel=1e-9, abs_=1e-12 * float(sum(abs(want2[k] * k[2]) for k in want2))):
+            run.violation("charge of a sum with an empty operand after +=: expected %r got %r" % (float(ch), charge2), inp)
+
+
+def _sum_counts(a, b):
+    out = dict(a)
+    for k, v in b.items():
+        out[k] = out.get(k, Fraction(0)) + v
+    return out
+
+
 def run(run: Run) -> int:
     pt = import_repo()
     from periodictable.formulas import formula
@@ -822,6 +938,7 @@ def run(run: Run) -> int:
     trace_fractions(run, tbl, formula, me)
     revised_masses(run, formula, me)
     big_counts_and_lazy_groups(run, tbl, formula, me)
+    empty_operands(run, tbl, formula, me)
     # replay consistency: the first programs once more at the end (nothing may depend on what ran in between)
     check_programs(run, progs[:150], tbl, formula, me)
     return run.finish(RULE, assumptions=[
